@@ -316,6 +316,33 @@ func execOp(line string) (res string) {
 		priv := &bec.PrivateKey{D: Nn(0)}
 		priv.Curve = curve
 		return "ok " + hx(bec.GenerateSharedSecret(priv, pubOf(Nn(1), Nn(2))))
+	case "ecdh.seq":
+		// several shared secrets in a row, all HELD and printed only after the last call (a result that aliases memory
+		// the library re-uses would change under the caller)
+		if !argc(1) {
+			return bad
+		}
+		var held [][]byte
+		for _, it := range strings.Split(a[0], ";") {
+			f := strings.Split(it, ":")
+			if len(f) != 3 {
+				return bad
+			}
+			d, ok1 := unnat(f[0])
+			x, ok2 := unnat(f[1])
+			y, ok3 := unnat(f[2])
+			if !ok1 || !ok2 || !ok3 {
+				return bad
+			}
+			priv := &bec.PrivateKey{D: d}
+			priv.Curve = curve
+			held = append(held, bec.GenerateSharedSecret(priv, pubOf(x, y)))
+		}
+		out := "ok"
+		for _, h := range held {
+			out += " " + hx(h)
+		}
+		return out
 	case "ecies.enc":
 		if !argc(4) {
 			return bad
